@@ -220,7 +220,8 @@ def run(case):
                             fs.put(tmp, stale_bytes[: max(1, len(stale_bytes) // 2)])
                 dw.feed(gw_a, case["old"])
                 status, exc = dw.save(gw_a)
-                assert status == "ok", (status, exc)
+                if status != "ok":
+                    raise _PlainSaveFailed("saving the old state (no fault injected)", status, exc)
                 s_old = diskutil.proj(gw_a)
                 fs.sync_all()
             else:
@@ -247,7 +248,8 @@ def run(case):
             dw.use(dry)
             dry.arm({})
             status, exc = dw.save(gw_a)
-            assert status == "ok", (status, exc)
+            if status != "ok":
+                raise _PlainSaveFailed(f"saving the new state on prior configuration {cfg['prior']!r} (no fault injected)", status, exc)
             oplog = list(dry.oplog)
             dw.use(fs)
             gw_a.tasks.persistence.need_save = True
@@ -318,6 +320,10 @@ def run(case):
                                                {"exc": repr(err), "after": f"{kind} at {opname}#{occurrence}", "first_save_status": status,
                                                 "loaded_nodes": sorted(diskutil.proj(gw_c)), "want_nodes": sorted(s_new)},
                                                op=opname, kind=kind))
+        except _PlainSaveFailed as exc:
+            # "and the next save succeeds": a save on one of the prior configurations fails although nothing was injected
+            violations.append(_vio("next-save-failed", {"when": exc.args[0], "status": exc.args[1], "exc": repr(exc.args[2]), "prior": cfg.get("prior")},
+                                   op="none", kind="none"))
         except kernel.SimAbort as exc:
             incomplete = str(exc)
     finally:
@@ -328,6 +334,10 @@ def run(case):
     digest = hashlib.sha256((digest + repr(key) + repr(sorted(probes))).encode()).hexdigest()
     return {"violations": violations, "digest": digest, "nontrivial": nontrivial, "key": key, "probes": probes, "faults": faults,
             "steps": steps, "sim_seconds": 0.0, "incomplete": incomplete, "sample": sample, "states": [], "extra": {"tuples": [key] if key else []}}
+
+
+class _PlainSaveFailed(Exception):
+    pass
 
 
 def _check_load(dw, disk, s_old, s_new, violations, probes, when, cfg, opname, kind):
